@@ -18,9 +18,9 @@ RULE = ("G-int arrangements (as C04) with 1-19 distinct kernel names per type, n
 ASSUMPTIONS = ["no kernel is literally named 'others'", "total analysed busy time > 0 (percentages)", "type by the documented name rules"]
 PLAN = {"quick": {"shards": 16, "cases": 400, "timeout": 600}, "thorough": {"shards": 16, "cases": 8000, "timeout": 3000}}
 FLOORS = {"quick": {"distinct_nontrivial": 150, "type_tables": 350, "per_type_groups": 1200, "named_rows_judged": 2000, "others_rows": 150,
-                    "combo_rows_multi": 150},
+                    "combo_rows_multi": 150, "annotation_breakdowns": 100, "annotation_rows_judged": 300},
           "thorough": {"distinct_nontrivial": 3000, "type_tables": 7000, "per_type_groups": 24000, "named_rows_judged": 40000, "others_rows": 3000,
-                       "combo_rows_multi": 3000}}
+                       "combo_rows_multi": 3000, "annotation_breakdowns": 2000, "annotation_rows_judged": 6000}}
 
 
 def setup(ctx: Any) -> None:
@@ -28,10 +28,75 @@ def setup(ctx: Any) -> None:
 
 
 def gen_case(rnd, tier: str, i: Any) -> Dict[str, Any]:
-    c = gen_int.gen_case(rnd, tier)
+    c = gen_int.gen_case(rnd, tier, annotations=True)
     c["params"] = {"num_kernels": rnd.choice([1, 2, 3, 10]), "duration_ratio": rnd.choice([0.1, 0.5, 0.8, 1.0]),
-                   "include_memory_kernels": rnd.random() < 0.5}
+                   "include_memory_kernels": rnd.random() < 0.5, "use_gpu_annotation": rnd.random() < 0.6,
+                   "allowlist": rnd.choice([None, None, ["fwd"], ["nccl:", "loss"], ["nomatch"]])}
     return c
+
+
+def _annotation_breakdown(case, ta, prm, res) -> bool:  # noqa: ANN001
+    """get_gpu_user_annotation_breakdown uses the same aggregator: conservation, cap (allow-listed names are never folded) and
+    per-name statistics per rank."""
+    import re as _re
+    from hv.ref import raw as _raw
+
+    cat = "gpu_user_annotation" if prm["use_gpu_annotation"] else "user_annotation"
+    per_rank = {}
+    for tr in case["files"].values():
+        evs = [e for e in _raw.model(tr["traceEvents"]) if e.cat == cat]
+        per_rank[tr["distributedInfo"]["rank"]] = evs
+    present = any(per_rank.values())
+    ok, df = drv.guard(res, "get_gpu_user_annotation_breakdown", ta.get_gpu_user_annotation_breakdown, prm["use_gpu_annotation"], False,
+                       prm["duration_ratio"], prm["num_kernels"], prm["allowlist"])
+    if not ok:
+        return False
+    if not present:
+        if df is not None and len(df):
+            res.bad("annotation-breakdown-absent", f"no {cat} events but a breakdown with {len(df)} rows")
+        return False
+    if df is None:
+        res.bad("annotation-breakdown-present", f"{cat} events exist but the breakdown is None")
+        return False
+    res.counters["annotation_breakdowns"] += 1
+    all_names = {e.name for evs in per_rank.values() for e in evs} | {e.name for tr in case["files"].values() for e in _raw.model(tr["traceEvents"])}
+    allow = set()
+    if prm["allowlist"]:
+        rx = _re.compile("|".join(_re.escape(p) for p in prm["allowlist"]))
+        allow = {n for n in all_names if isinstance(n, str) and rx.search(n)}
+    many = False
+    for r, evs in per_rank.items():
+        durs = collections.defaultdict(list)
+        for e in evs:
+            durs[e.name].append(e.dur)
+        sub = df[df["rank"] == r]
+        if not evs:
+            if len(sub):
+                res.bad("annotation-rows", f"rank {r}: rows without annotation events")
+            continue
+        if len(durs) > prm["num_kernels"]:
+            many = True
+        tot = sum(sum(v) for v in durs.values())
+        if abs(float(sub["sum (us)"].sum()) - tot) > 1e-9:
+            res.bad("annotation-conservation", f"rank {r} {cat}: reported sums add up to {sub['sum (us)'].sum()}, annotations' durations to {tot}")
+        named = sub[sub["name"] != "others"]
+        not_allowed = [n for n in named["name"].tolist() if n not in allow]
+        if len(not_allowed) > prm["num_kernels"]:
+            res.bad("annotation-num-kernels-cap", f"rank {r} {cat}: {len(not_allowed)} named rows outside the allow-list with num_kernels={prm['num_kernels']}")
+        folded_allowed = [n for n in allow if n in durs and n not in set(named["name"].tolist())]
+        if folded_allowed and len(durs) > prm["num_kernels"]:
+            res.bad("annotation-allowlist-kept", f"rank {r} {cat}: allow-listed names {folded_allowed[:3]} were folded into 'others'")
+        for nm, s_, mx, mn, mean in zip(named["name"].tolist(), named["sum (us)"].tolist(), named["max (us)"].tolist(), named["min (us)"].tolist(), named["mean (us)"].tolist()):
+            res.counters["annotation_rows_judged"] += 1
+            v = durs.get(nm)
+            if v is None:
+                res.bad("annotation-row-known", f"rank {r} {cat}: row for unknown annotation {nm!r}")
+                continue
+            want = (sum(v), max(v), min(v), sum(v) / len(v))
+            if (float(s_), float(mx), float(mn)) != tuple(map(float, want[:3])) or abs(float(mean) - want[3]) > 1e-9:
+                res.bad("annotation-row-stats", f"rank {r} {cat} {nm!r}: (sum,max,min,mean)=({s_},{mx},{mn},{mean}) but its {len(v)} annotations give {want}")
+                break
+    return many
 
 
 def run_case(case: Dict[str, Any], ctx: Any) -> core.CaseResult:
@@ -118,6 +183,7 @@ def run_case(case: Dict[str, Any], ctx: Any) -> core.CaseResult:
                         if nb <= 2:
                             res.bad("named-row-stats", f"rank {r} {ty} {nm!r}: (sum,max,min,mean)=({s_},{mx},{mn},{mean}) but its {len(v)} kernels give {want}; "
                                     f"params {prm}, names of this type {len(durs)}", n_names=len(durs), num_kernels=prm["num_kernels"])
+        many_names = _annotation_breakdown(case, ta, prm, res) or many_names
         multi = any(len(k) > 1 and v > 0 for k, v in exp_combo.items())
         res.nontrivial = multi or many_names
         res.trivial_reason = "no two analysed types overlap and names <= num_kernels"
